@@ -771,6 +771,86 @@ fn all_connections_scenarios() -> Vec<String> {
     out
 }
 
+// ------------------------------------------------------------------ family: snapshot (histories of writes, snapshots and restarts on the real disk code)
+fn scenario_snapshot(sc: &str) -> Result<Violations, String> {
+    // sc = ops separated by '.':  s<key><val idx>  r<key>  i<key>  S (incremental snapshot)  R (space-reclaiming snapshot)  L (restart: load from disk)
+    use nundb::disk_ops::snapshot_all_pendding_dbs;
+    use nundb::storage::disk::{create_db_from_file_name, file_name_from_db_name};
+    let vals: [String; 6] = ["v".into(), "".into(), "two words".into(), "7".into(), "ação ✓ 日本".into(), "x".repeat(700)];
+    let dir = std::env::var("NUN_DBS_DIR").map_err(|_| "NUN_DBS_DIR not set")?;
+    let name = "snapdb".to_string();
+    for suf in [".keys", ".values", ".keys.old", ".values.old"] { let _ = std::fs::remove_file(format!("{}{}", file_name_from_db_name(&name), suf)); }
+    let _ = std::fs::remove_file(format!("{}/{}-nun.madadata", dir, name));
+    let dbs = mk_dbs();
+    let (mut c, mut rx) = Client::new_empty_and_receiver();
+    let w = World { dbs: dbs.clone() };
+    for cmd in ["auth u p", "create-db snapdb tok newer", "use-db snapdb tok"] { run_cmd(&w, &mut c, &mut rx, cmd); }
+    let live = |dbs: &Arc<Databases>| -> Vec<(String, String, i32)> {
+        let m = dbs.map.read().unwrap(); let db = m.get("snapdb").unwrap(); let data = db.map.read().unwrap();
+        let mut out: Vec<(String, String, i32)> = data.iter().filter(|(k, v)| v.state != ValueStatus::Deleted && k.as_str() != "$connections")
+            .map(|(k, v)| (k.clone(), v.value.clone(), v.version)).collect();
+        out.sort(); out };
+    let (id0, strat0) = { let m = dbs.map.read().unwrap(); let db = m.get("snapdb").unwrap(); (db.metadata.id, db.metadata.consensus_strategy) };
+    let mut v: Violations = vec![];
+    let mut snap: Option<Vec<(String, String, i32)>> = None;
+    for op in sc.split('.').filter(|o| !o.is_empty()) {
+        let ok = catch_unwind(AssertUnwindSafe(|| {
+            let b = op.as_bytes();
+            match b[0] {
+                b's' => { let cmd = format!("set k{} {}", b[1] as char, vals[(b[2] - b'0') as usize]); run_cmd(&w, &mut c, &mut rx, &cmd); None }
+                b'r' => { run_cmd(&w, &mut c, &mut rx, &format!("remove k{}", b[1] as char)); None }
+                b'i' => { run_cmd(&w, &mut c, &mut rx, &format!("increment k{} 1", b[1] as char)); None }
+                b'S' | b'R' => {
+                    let before = live(&dbs);
+                    dbs.to_snapshot.write().unwrap().push((name.clone(), b[0] == b'R'));
+                    snapshot_all_pendding_dbs(&dbs);
+                    // a snapshot changes nothing a client can see
+                    Some((before.clone(), live(&dbs) == before, false))
+                }
+                _ if !std::path::Path::new(&format!("{}.keys", file_name_from_db_name(&name))).exists() => None,   // nothing was ever snapshotted: no restart to judge
+                _ => {
+                    let (db, _) = create_db_from_file_name(&format!("{}-nun.data.keys", name), &dbs);
+                    let meta_ok = db.metadata.id == id0 && db.metadata.consensus_strategy == strat0;
+                    dbs.map.write().unwrap().insert(name.clone(), db);
+                    Some((live(&dbs), meta_ok, true))
+                }
+            }
+        }));
+        match ok {
+            Err(_) => { v.push("C10.safety".into()); return Ok(v); }
+            Ok(None) => {}
+            Ok(Some((state, flag, is_load))) => {
+                if !is_load { chk(&mut v, "C06.snapshot-keeps-memory", flag); snap = Some(state); }
+                else if let Some(sn) = &snap {
+                    // ---- restart after the last completed snapshot: exactly the snapshotted state (live keys, values byte for byte, versions), same id and strategy
+                    chk(&mut v, "C06.loader-decodes-image", &state == sn);
+                    chk(&mut v, "C06.write-plan", &state == sn);
+                    chk(&mut v, "C06.restore-is-snapshot", &state == sn);
+                    chk(&mut v, "C06.metadata-restored", flag);
+                }
+            }
+        }
+    }
+    Ok(v)
+}
+fn all_snapshot_scenarios() -> Vec<String> {
+    // every history of `len` operations over two keys, a snapshot and a restart appended so that each is judged; plus hand-picked longer ones
+    let ops = ["sa0", "sa4", "sb5", "sa1", "ra", "ia", "S", "R", "L"];
+    let len = if deep() { 5 } else { 4 };
+    let mut out: Vec<String> = vec![];
+    let mut idx = vec![0usize; len];
+    loop {
+        let h: Vec<&str> = idx.iter().map(|&i| ops[i]).collect();
+        if h.iter().any(|o| *o == "S" || *o == "R") { out.push(format!("{}.S.L", h.join("."))); out.push(format!("{}.L", h.join("."))); out.push(format!("{}.R.L", h.join("."))); }
+        let mut p = 0; loop { if p == len { break; } idx[p] += 1; if idx[p] < ops.len() { break; } idx[p] = 0; p += 1; }
+        if p == len { break; }
+    }
+    for h in ["sa0.S.sa2.S.L.ra.S.L.sa3.R.L", "sa5.sb4.S.ra.S.sa0.S.L.ia.R.L.rb.S.L", "sa3.ia.ia.S.L.ia.S.L", "sa0.S.ra.R.sa1.S.L", "sa0.sb0.R.ra.S.sb2.S.L.R.L",
+              "sa0.ra.S.L", "sa0.S.ra.sa1.S.L", "sa1.S.L.sa1.S.L", "sa0.S.L.ra.S.L.L"] { out.push(h.to_string()); }
+    out.sort(); out.dedup();
+    out
+}
+
 // ------------------------------------------------------------------ family: election (single calls of election_eval / start_new_election on one node)
 fn scenario_election(sc: &str) -> Result<Violations, String> {
     // sc = "<role>.<members>.<own start time>.<candidate start time | new>"   role in {s,p,c} (StartingUp / Primary / Secoundary), members in {1,2}
@@ -906,7 +986,8 @@ fn families() -> Vec<(&'static str, fn() -> Vec<String>, fn(&str) -> Result<Viol
          ("connections", all_connections_scenarios, scenario_connections),
          ("keymap", all_keymap_scenarios, scenario_keymap),
          ("http", all_http_scenarios, scenario_http),
-         ("election", all_election_scenarios, scenario_election)]
+         ("election", all_election_scenarios, scenario_election),
+         ("snapshot", all_snapshot_scenarios, scenario_snapshot)]
 }
 
 fn main() {
